@@ -339,7 +339,7 @@ def s1(ctx):
     relabel(ctx, "C03.S1", c11.r1, c11.r2, c18.r1)
 
 
-RULES = [("C03.R1", r1), ("C03.R2", r2), ("C03.R3", r3), ("C03.R4", r4), ("C03.R5", r5), ("C03.R6", r6)]
+RULES = [("C03.R1", r1), ("C03.R2", r2), ("C03.R3", r3), ("C03.R4", r4), ("C03.R5", r5), ("C03.R6", r6), ("C03.S1", s1)]
 
 
 def generic_eqhash(ctx, rule: str):
